@@ -39,6 +39,13 @@ Proof.
 Qed.
 Print Assumptions C16_lowering_does_not_depend_on_the_drawn_identifiers.
 
+(* the same for rearrangements with new output axes (alignment + broadcast_to + reshape) *)
+Theorem C16_new_axes_lowering_does_not_depend_on_the_drawn_identifiers :
+  forall (f : N -> N), (forall a b, f a = f b -> a = b) ->
+  forall k din dout, lower_broadcast k (map (prename f) din) (map (prename f) dout) = lower_broadcast k din dout.
+Proof. intros f Hinj. exact (lower_broadcast_rename f Hinj). Qed.
+Print Assumptions C16_new_axes_lowering_does_not_depend_on_the_drawn_identifiers.
+
 Example C16_renaming_example :
   (* "a ([b] c) -> c a" with the names 1,2,3 and with the names 901,17,5 *)
   let f := fun n : N => match n with 1 => 901 | 2 => 17 | 3 => 5 | n => n + 1000 end%N in
